@@ -435,8 +435,20 @@ func runC19(c *Ctx) {
 				inPath = filepath.Join(j.dir, "FitSDKRelease_"+j.wb+".00.zip")
 				zf, _ := os.Create(inPath)
 				zw := zip.NewWriter(zf)
-				w, _ := zw.Create("FitSDKRelease_" + j.wb + ".00/Profile.xlsx")
+				// an SDK archive as shipped / re-packed: other members around the
+				// workbook, and (archives made on macOS) an AppleDouble companion
+				// "._Profile.xlsx" after it, which is not a workbook
+				root := "FitSDKRelease_" + j.wb + ".00/"
+				for _, other := range []string{"README.txt", "c/fit.h", "Profile.xlsx.txt"} {
+					ow, _ := zw.Create(root + other)
+					ow.Write([]byte("not the workbook\n"))
+				}
+				w, _ := zw.Create(root + "Profile.xlsx")
 				w.Write(buf.Bytes())
+				if j.k%4 == 1 {
+					aw, _ := zw.Create("__MACOSX/" + root + "._Profile.xlsx")
+					aw.Write([]byte("\x00\x05\x16\x07\x00\x02\x00\x00Mac OS X        "))
+				}
 				zw.Close()
 				zf.Close()
 				args = nil
